@@ -283,7 +283,7 @@ def run_numbers(ctx):
             ctx.violation("NumberExpression::from_str panicked", {"text_hex": parts[0],
                           "text": bytes.fromhex(parts[0]).decode("utf-8", "replace")}, key="number-parse-panic:" + parts[0])
             continue
-        exp = "None" if parts[1] == "ERR" else "(Some %s)" % parts[1]
+        exp = "(@None number)" if parts[1] == "ERR" else "(Some %s)" % parts[1]
         cases.append((len(cases), "(%s, %s)" % (C.coq_string(parts[0]), exp), parts[0], parts[1]))
     bad = C.run_coq_cases(ctx.prop, PARSE_PREAMBLE, [(c[0], c[1]) for c in cases], chunk=400, tag="parse")
     accepted = sum(1 for c in cases if c[3] != "ERR")
